@@ -408,6 +408,8 @@ class Interp:
             names = list(ba.arguments.items())
         except (TypeError, ValueError):
             names = None
+        if names is None and isinstance(pycls, type) and issubclass(pycls, BaseExceptionGroup) and len(args) == 2 and not kwargs:
+            names = [("message", args[0]), ("exceptions", args[1])]       # the builtin groups have no introspectable signature
         fields = {}
         if names is not None:
             for n, a in names:
